@@ -1252,6 +1252,31 @@ def _level_store(I, new, slot, is_mean_point, sv, node, applies, env):
 def construct(I, f, args, kwargs, node):
     cls = f.node
     obj = Opaque(f.dotted, {"__class__": (f.module, cls), "__args__": (args, kwargs)})
+    if any((dotted_name(b) or "").split(".")[-1] == "NamedTuple" for b in cls.bases):
+        # typing.NamedTuple: a tuple of the fields in declaration order, with the field names as attributes
+        fields = [n for n in cls.body if isinstance(n, ast.AnnAssign) and isinstance(n.target, ast.Name)]
+        names = [n.target.id for n in fields]
+        given = dict(zip(names, args))
+        for k, v in kwargs.items():
+            if k in given or k not in names:
+                raise I_.raise_exc("TypeError", node, "%s() got an unexpected or repeated field %s" % (cls.name, k))
+            given[k] = v
+        vals = []
+        saved = I.cur_mod
+        I.cur_mod = f.module
+        try:
+            for n in fields:
+                if n.target.id in given:
+                    vals.append(given[n.target.id])
+                elif n.value is not None:
+                    vals.append(I.eval(n.value, {}))
+                else:
+                    raise I_.raise_exc("TypeError", node, "%s() missing field %s" % (cls.name, n.target.id))
+        finally:
+            I.cur_mod = saved
+        t = Tup(vals, "tuple")
+        t.fields = names
+        return t
     if any((dotted_name(d.func if isinstance(d, ast.Call) else d) or "").split(".")[-1] == "dataclass" for d in cls.decorator_list):
         # a dataclass: the generated constructor binds the fields in declaration order, fills the defaults and runs __post_init__
         fields = [n for n in cls.body if isinstance(n, ast.AnnAssign) and isinstance(n.target, ast.Name)]
@@ -1894,6 +1919,19 @@ def dc_fields(I, args, kwargs, node):
 def external(I, dotted, args, kwargs, node):
     if dotted == "dataclasses.fields":
         return dc_fields(I, args, kwargs, node)
+    if dotted in ("copy.copy", "copy.deepcopy") and len(args) == 1:
+        x = args[0]
+        if isinstance(x, Opaque) and "__class__" in x.attrs:
+            new = Opaque(x.name, dict(x.attrs))  # another object with the same fields (a deep copy's nested objects are not followed)
+            new.attrs["__replaced_from__"] = x
+            return new
+        if isinstance(x, Tup):
+            return Tup(list(x.items), x.kind)
+        if isinstance(x, Arr):
+            return x.copy()
+        if isinstance(x, (Expr, str, bool)) or x is None:
+            return x
+        return Unknown("copy of %r" % (x,))
     if dotted == "dataclasses.replace" and args and isinstance(args[0], Opaque) and len(args) == 1:
         # a copy of the dataclass instance with some fields given anew (the constructor's own checks are not re-run here)
         src = args[0]
